@@ -843,14 +843,13 @@ theorem inserted_rollback {t : Tree} {p c : Nat} {l' : Str} (hk : l' ∉ keys (t
   · intro x; rfl
 
 /-- the innermost `self._parent.add_child(self)` of `_set_parent`, for a child that the new
-parent does not list yet: inserts it (or runs into the recursion limit) -/
+parent does not list yet: inserts it -/
 theorem adopt_via_setParent {cfg : Cfg} (hr : Repaired cfg) {t1 : Tree} (h1 : WFTree t1) {p c : Nat}
     (hp : t1.parent c = none) (hk : t1.kind c ≠ .workflow) (hne : p ≠ c) (hanc : ¬ Anc t1 c p)
+    (hc1 : cyclicCheck cfg t1 p c = .ok)
     {l' : Str} (hu : uniqueLabel t1 p (t1.label c) (t1.strict p) = .ok l') :
-    (addChildCore cfg { t1 with parent := updF t1.parent c (some p) } p c none none
-        (setParentEarly p c) = (adopt t1 p c l', .ok) ∧ WFTree (adopt t1 p c l')) ∨
-    (addChildCore cfg { t1 with parent := updF t1.parent c (some p) } p c none none
-        (setParentEarly p c)).2 = .recursionError := by
+    addChildCore cfg { t1 with parent := updF t1.parent c (some p) } p c none none
+        (setParentEarly p c) = (adopt t1 p c l', .ok) ∧ WFTree (adopt t1 p c l') := by
   have hnl : c ∉ vals (t1.children p) := by
     rw [h1.mem_vals_iff, hp]; simp
   have hsl : '/' ∉ l' := uniqueLabel_no_slash (h1.labelsOk c) hu
@@ -859,15 +858,13 @@ theorem adopt_via_setParent {cfg : Cfg} (hr : Repaired cfg) {t1 : Tree} (h1 : WF
   let t2 : Tree := { t1 with parent := updF t1.parent c (some p) }
   have hl2 : LocalOK t2 p := ⟨h1.keysNodup p, fun _ _ hm => h1.label_of_mem hm⟩
   have hup : t2.parent c = some p := by simp [t2]
-  rcases cyclicCheck_child_of cfg t2 p c hne hup with hc | hc
-  · left
-    refine ⟨?_, hwf⟩
-    have hu2 : uniqueLabel t2 p (Option.getD none (t2.label c)) (Option.getD none (t2.strict p)) = .ok l' := hu
-    rw [addChildCore_fresh hr _ hl2 hc (by simp [hup]) hnl hu2 hsl]
-    simp [setParentEarly, inserted, t2, adopt]
-  · right
-    rw [addChildCore_notok cfg t2 p c none none _ (by rw [hc]; decide)]
-    exact hc
+  have hc : cyclicCheck cfg t2 p c = .ok := by
+    rw [cyclicCheck_congr_identity hr.f5 t1 t2 p c (fun x hx => by simp [t2, updF, hx])]
+    exact hc1
+  refine ⟨?_, hwf⟩
+  have hu2 : uniqueLabel t2 p (Option.getD none (t2.label c)) (Option.getD none (t2.strict p)) = .ok l' := hu
+  rw [addChildCore_fresh hr _ hl2 hc (by simp [hup]) hnl hu2 hsl]
+  simp [setParentEarly, inserted, t2, adopt]
 
 theorem setParent_some_good {cfg : Cfg} (hr : Repaired cfg) {t : Tree} (h : WFTree t) (c p : Nat) :
     Good t (setParent cfg t c (some p)) := by
@@ -893,9 +890,8 @@ theorem setParent_some_good {cfg : Cfg} (hr : Repaired cfg) {t : Tree} (h : WFTr
             cases hp : t.parent c with
             | none =>
               simp only []
-              rcases adopt_via_setParent hr h hp hk hpc hanc hu with ⟨he, hw⟩ | hrec
-              · rw [he]; exact ⟨fun _ => hw, fun hn => absurd rfl hn⟩
-              · exact good_of_recursion hrec
+              obtain ⟨he, hw⟩ := adopt_via_setParent hr h hp hk hpc hanc hc hu
+              rw [he]; exact ⟨fun _ => hw, fun hn => absurd rfl hn⟩
             | some q =>
               have hm := (h.mem_vals_iff q c).mpr hp
               have hqp : q ≠ p := by intro e; subst e; exact hne hp.symm
@@ -916,9 +912,12 @@ theorem setParent_some_good {cfg : Cfg} (hr : Repaired cfg) {t : Tree} (h : WFTr
                 · rfl
                 · simp [release, removeCore0, updF, Ne.symm hqp]
                 · simp [childLabels, release, removeCore0, updF, Ne.symm hqp]
-              rcases adopt_via_setParent hr h1 hp1 hk hpc hanc1 hu1 with ⟨he, hw⟩ | hrec
-              · rw [he]; exact ⟨fun _ => hw, fun hn => absurd rfl hn⟩
-              · exact good_of_recursion hrec
+              have hc1 : cyclicCheck cfg (release t q c) p c = .ok := by
+                rw [cyclicCheck_congr_identity hr.f5 t (release t q c) p c
+                  (fun x hx => by simp [release, removeCore0, updF, hx])]
+                exact hc
+              obtain ⟨he, hw⟩ := adopt_via_setParent hr h1 hp1 hk hpc hanc1 hc1 hu1
+              rw [he]; exact ⟨fun _ => hw, fun hn => absurd rfl hn⟩
         · simp only [hc]; exact good_same h _
         · simp only [hc]; exact good_same h _
 
@@ -949,19 +948,18 @@ theorem setParent_inserted {cfg : Cfg} (hr : Repaired cfg) {t : Tree} (h : WFTre
         apply Tree.ext' <;> intros <;> rfl
       have hwf : WFTree (adopt t p c l') := adopt_wf h hp hk hl hsl hanc (Ne.symm hpc)
       have hup : t2.parent c = some p := by simp [t2]
-      rcases cyclicCheck_child_of cfg t2 p c hpc hup with hc2 | hc2
-      · left
-        refine ⟨?_, hwf⟩
-        have hl2 : LocalOK t2 p := by rw [e2]; exact hwf.localOK p
-        have hmem : (t2.label c, c) ∈ t2.children p := by simp [t2, inserted]
-        show addChildCore cfg t2 p c none none (setParentEarly p c) = _
-        unfold addChildCore
-        simp only [hc2, hup, alreadyAtLabel_eq hl2, Option.getD_none, hmem, and_self, decide_true]
-        simp [e2]
-      · right; left
-        show (addChildCore cfg t2 p c none none (setParentEarly p c)).2 = _
-        rw [addChildCore_notok cfg t2 p c none none _ (by rw [hc2]; decide)]
-        exact hc2
+      have hc2 : cyclicCheck cfg t2 p c = .ok := by
+        rw [cyclicCheck_congr_identity hr.f5 (inserted t p c l') t2 p c
+          (fun x hx => by simp [t2, updF, hx])]
+        exact hc
+      left
+      refine ⟨?_, hwf⟩
+      have hl2 : LocalOK t2 p := by rw [e2]; exact hwf.localOK p
+      have hmem : (t2.label c, c) ∈ t2.children p := by simp [t2, inserted]
+      show addChildCore cfg t2 p c none none (setParentEarly p c) = _
+      unfold addChildCore
+      simp only [hc2, hup, alreadyAtLabel_eq hl2, Option.getD_none, hmem, and_self, decide_true]
+      simp [e2]
     · right; right
       exact ⟨.cyclicPathError, by decide, by simp only [hc]⟩
     · right; left
